@@ -271,12 +271,31 @@ LossProgs ==
                  y \in {[i \in 1..sh[1] |-> (i * 2) % sh[2]], [i \in 1..sh[1] |-> 0]}}
               : sh \in {<<3, 3>>, <<2, 4>>, <<1, 2>>}}
 
+\* ---------------------------------------------------------------- in-place updates through view chains, C- and Fortran-ordered
+\* bases: leaf ; [scale: so that the base is an intermediate] ; view chain ; in-place update through the last view ; backward(base)
+LeafO(h, sh, name, ord) == IF ord = "F" THEN [k |-> "leaf", h |-> h, sh |-> sh, v |-> Vec(Size(sh), name), const |-> FALSE, order |-> "F"]
+                           ELSE Leaf(h, sh, name, FALSE)
+Chains(b) ==     \* view chains starting at handle b; each a sequence of statements creating handles b+1, b+2, ...
+  {<< [k |-> "op", h |-> b + 1, f |-> "T", a |-> <<Opnd(b)>>], [k |-> "op", h |-> b + 2, f |-> "reshape", a |-> <<Opnd(b + 1)>>, sh |-> <<-1>>] >>,
+   << [k |-> "op", h |-> b + 1, f |-> "reshape", a |-> <<Opnd(b)>>, sh |-> <<-1>>] >>,
+   << [k |-> "op", h |-> b + 1, f |-> "T", a |-> <<Opnd(b)>>] >>,
+   << [k |-> "op", h |-> b + 1, f |-> "getitem", a |-> <<Opnd(b)>>, ix |-> Basic(<<Full, SL(FALSE, 1, TRUE, 0, TRUE, 1)>>)] >>,
+   << [k |-> "op", h |-> b + 1, f |-> "T", a |-> <<Opnd(b)>>],
+      [k |-> "op", h |-> b + 2, f |-> "getitem", a |-> <<Opnd(b + 1)>>, ix |-> Basic(<<IntI(-1)>>)] >>}
+InPlaceProgs ==
+  UNION {{<< LeafO(1, <<2, 3>>, "NZ", ord) >> \o ch \o
+            << IF upd = "aug" THEN [k |-> "aug", t |-> 1 + Len(ch), f |-> "multiply", val |-> Opnd(1 + Len(ch))]
+               ELSE IF upd = "augs" THEN [k |-> "aug", t |-> 1 + Len(ch), f |-> "add", val |-> [s |-> Q(3)]]
+               ELSE [k |-> "setitem", t |-> 1 + Len(ch), ix |-> Basic(<<[t |-> "ell"]>>), val |-> [s |-> Q(5)]],
+               [k |-> "op", h |-> 2 + Len(ch), f |-> "multiply", a |-> <<Opnd(1), Opnd(1)>>] >>
+            : upd \in {"aug", "augs", "set"}, ch \in Chains(1)} : ord \in {"C", "F"}}
+
 Progs == CASE Group = "binary" -> BinProgs [] Group = "unary" -> UnProgs [] Group = "reduce" -> RedProgs
            [] Group = "matmul" -> MatProgs [] Group = "getitem" -> GetProgs [] Group = "setitem" -> SetProgs
            [] Group = "whereout" -> WhereOutProgs [] Group = "move" -> MoveProgs
            [] Group = "activation" -> ActProgs [] Group = "cumulative" -> CumProgs [] Group = "sequence" -> SeqProgs
            [] Group = "einsum" -> EinProgs [] Group = "conv" -> ConvProgs [] Group = "maxpool" -> PoolProgs
-           [] Group = "loss" -> LossProgs
+           [] Group = "loss" -> LossProgs [] Group = "inplace" -> InPlaceProgs
 
 Init == cellprog \in Progs
 Next == UNCHANGED cellprog
